@@ -438,3 +438,137 @@ def generators_stage(prop, tier, seed, threads=4):
 def replay_gens(rep):
     st = generators_stage("replay", "quick", rep["seed"])
     return [v["message"] for v in st.violations]
+
+
+# ---------------------------------------------------------------------------------------------------
+# memory (C20) and threads (C18)
+# ---------------------------------------------------------------------------------------------------
+def memory_stage(prop, tier, seed, profile):
+    """Run the secret-handling scenarios with the tracing allocator armed; TLC validates every recorded release."""
+    st = StageResult(f"trace:TraceMemory@{profile}")
+    t0 = time.time()
+    wd = vlib.workdir(f"{prop}_mem_{profile}")
+    tp = os.path.join(wd, "trace.ndjson")
+    info = json.loads(vlib.run_harness(["mem", "--out", tp, "--seed", str(seed)] + ([] if tier == "quick" else ["--full"]), profile=profile))
+    st.notes["recorded"] = info
+    events = [json.loads(x) for x in open(tp)]
+    cfg = "SPECIFICATION Spec\nCONSTRAINT Progress\nPOSTCONDITION Accepted\nCHECK_DEADLOCK FALSE\n"
+    cur = events
+    rounds = 0
+    while cur and rounds < 8:
+        rounds += 1
+        wdr = vlib.workdir(f"{prop}_tvmem_{profile}_{rounds}")
+        p = os.path.join(wdr, "trace.ndjson")
+        with open(p, "w") as fh:
+            for e in cur:
+                fh.write(json.dumps(e) + "\n")
+        r = vlib.run_tlc("TraceMemory", cfg, wdr, workers=1, timeout=1500, java_opts=TRACE_JAVA, env_extra={"TRACE": p})
+        st.states += r.get("distinct", 0)
+        st.transitions += r.get("generated", 0)
+        rej = vlib.tagged_lines(r["out"], "REJECTED")
+        if not rej:
+            if not r["ok"]:
+                raise vlib.ToolError("TLC failed on TraceMemory:\n" + r["out"][-2000:])
+            st.evaluations += len(cur)
+            break
+        import re
+        pos = int(re.match(r"\s*(\d+),", rej[-1]).group(1))
+        if pos > len(cur):
+            raise vlib.ToolError("memory trace ended inside a scenario")
+        bad = cur[pos - 1]
+        arm = next((e for e in reversed(cur[:pos]) if e["ev"] == "Arm"), {"scenario": bad.get("what", "?")})
+        what = f"{bad.get('size', '')}-byte block freed still holding {bad.get('taint')}" if bad["ev"] == "Free" else f"{bad['ev']}: {json.dumps(bad)[:200]}"
+        st.add_violation(f"[TraceMemory/{profile}] during '{arm.get('scenario')}': {what}",
+                         {"kind": "mem", "profile": profile, "seed": seed, "tier": tier, "scenario": arm.get("scenario"), "event": bad})
+        st.evaluations += pos - 1
+        cur = [e for e in cur if e["scen"] > bad["scen"]]
+    st.traces += info["scenarios"] - len(st.violations)
+    for e in events:
+        if e["ev"] == "Arm":
+            st.distinct.add(e["scenario"])
+    st.samples.append({"scenario": next(e["scenario"] for e in events if e["ev"] == "Arm"), "events": len(events)})
+    st.wall = time.time() - t0
+    return st
+
+
+def replay_mem(rep):
+    st = memory_stage("replay", rep.get("tier", "quick"), rep["seed"], rep["profile"])
+    return [v["message"] for v in st.violations]
+
+
+def threads_stage(prop, tier, seed, races=6, race_threads=8):
+    """Reference process, TLC-generated histories on real threads with forced hand-off, free-running races in fresh processes."""
+    st = StageResult("rp+tv:threads")
+    t0 = time.time()
+    wd = vlib.workdir(f"{prop}_threads")
+    q = tier == "quick"
+    cfg = lambda sticky: (f'CONSTANTS NThreads = {2 if q else 3} MaxLen = {3 if q else 4} Sticky = {"TRUE" if sticky else "FALSE"} Tier = "{tier}"\n'
+                          f"SPECIFICATION Spec\nINVARIANTS Pure{'' if sticky else ' Emit'}\nCHECK_DEADLOCK FALSE\n")
+    r = vlib.run_tlc("MC_Histories", cfg(False), wd, workers=8, timeout=3000)
+    if not r["ok"]:
+        raise vlib.ToolError("MC_Histories failed:\n" + r["out"][-2000:])
+    st.states += r["distinct"]
+    st.transitions += r["generated"]
+    rn = vlib.run_tlc("MC_Histories", cfg(True), vlib.workdir(f"{prop}_threads_neg"), workers=8, timeout=3000)
+    st.negatives.append({"name": "hidden_cache_keyed_by_part_of_the_argument", "expected": "Pure", "violated": rn["violated"]})
+    if "Pure" not in rn["violated"]:
+        raise vlib.ToolError("MC_Histories negative configuration not caught")
+    hist = vlib.replay_lines(r["out"])
+    hist.sort(key=lambda h: json.dumps(h, sort_keys=True))
+    rng = random.Random(seed)
+    limit = 500 if q else 6000
+    if len(hist) > limit:
+        hist = rng.sample(hist, limit)
+    hp = os.path.join(wd, "hist.ndjson")
+    with open(hp, "w") as fh:
+        for h in hist:
+            fh.write(json.dumps(h) + "\n")
+    # reference: each call alone, in its own fresh single-threaded process
+    refp = os.path.join(wd, "ref.ndjson")
+    vlib.run_harness(["threads", "--reference", "--out", refp])
+    ref_lines = open(refp).read()
+    files = []
+    hp_out = os.path.join(wd, "hist_trace.ndjson")
+    vlib.run_harness(["threads", "--histories", hp, "--out", hp_out], timeout=3000)
+    files.append(("histories", hp_out))
+    for i in range(races if q else races * 5):
+        rp = os.path.join(wd, f"race{i}.ndjson")
+        vlib.run_harness(["threads", "--race", str(race_threads if i % 2 == 0 else 2 + (i % 15)), "--run", str(i), "--out", rp], timeout=3000)
+        files.append((f"race{i}", rp))
+    tcfg = "SPECIFICATION Spec\nCONSTRAINT Progress\nPOSTCONDITION Accepted\nCHECK_DEADLOCK FALSE\n"
+    for name, fp in files:
+        wdr = vlib.workdir(f"{prop}_tvthr_{name}")
+        p = os.path.join(wdr, "trace.ndjson")
+        body = open(fp).read()
+        with open(p, "w") as fh:
+            fh.write(ref_lines + body)
+        rr = vlib.run_tlc("TraceThreads", tcfg, wdr, workers=1, timeout=1500, java_opts=TRACE_JAVA, env_extra={"TRACE": p})
+        st.states += rr.get("distinct", 0)
+        st.transitions += rr.get("generated", 0)
+        nev = body.count("\n")
+        rej = vlib.tagged_lines(rr["out"], "REJECTED")
+        if rej:
+            import re
+            pos = int(re.match(r"\s*(\d+),", rej[-1]).group(1))
+            allev = [json.loads(x) for x in (ref_lines + body).splitlines()]
+            bad = allev[pos - 1] if pos <= len(allev) else {}
+            st.add_violation(f"[TraceThreads/{name}] call {bad.get('call')} on thread {bad.get('th')} (run {bad.get('run')}) returned a result different from the same call run alone",
+                             {"kind": "threads", "seed": seed, "tier": tier, "name": name, "event": bad,
+                              "history": hist[bad["run"]] if name == "histories" and bad.get("run") is not None and bad["run"] < len(hist) else None})
+            st.evaluations += max(0, pos - 1 - ref_lines.count("\n"))
+        else:
+            if not rr["ok"]:
+                raise vlib.ToolError("TLC failed on TraceThreads:\n" + rr["out"][-2000:])
+            st.evaluations += nev
+            st.traces += 1 if name != "histories" else len(hist)
+    for h in hist:
+        st.distinct.add(vlib.digest(h))
+    st.samples.append({"history": hist[0], "races": len(files) - 1})
+    st.notes["histories"] = len(hist)
+    st.wall = time.time() - t0
+    return st
+
+
+def replay_threads(rep):
+    st = threads_stage("replay", rep.get("tier", "quick"), rep["seed"])
+    return [v["message"] for v in st.violations]
